@@ -133,6 +133,7 @@ macro_rules! mat_lay {
             ("from_cols", Box::new(move |e| mat_lay!(@from_cols $N, $T, colv, e))),
             ("from_cols_array_2d", Box::new(|e| <$T>::from_cols_array_2d(&core::array::from_fn(|c| core::array::from_fn(|r| e[c * $N + r]))))),
             ("from_cols_slice", Box::new(|e| <$T>::from_cols_slice(e))),
+            ("from_cols_slice(longer, offset)", Box::new(|e| { let mut v = vec![tag::<$S>(28)]; v.extend_from_slice(e); v.push(tag::<$S>(30)); <$T>::from_cols_slice(&v[1..]) })),
             ("from_cols_slice(longer)", Box::new(|e| { let mut v = e.to_vec(); v.push(tag::<$S>(30)); v.push(tag::<$S>(31)); <$T>::from_cols_slice(&v) })),
             ("col_mut writes", Box::new(|e| { let mut m = <$T>::ZERO; for c in 0..$N { for r in 0..$N { m.col_mut(c)[r] = e[c * $N + r]; } } m })),
             ("axis field writes", Box::new(move |e| { let mut m = <$T>::IDENTITY; mat_lay!(@axes $N, m, colv, e); m })),
@@ -141,6 +142,8 @@ macro_rules! mat_lay {
             ("to_cols_array", Box::new(|m| m.to_cols_array().to_vec())),
             ("to_cols_array_2d", Box::new(|m| m.to_cols_array_2d().iter().flat_map(|c| c.iter().copied()).collect())),
             ("write_cols_to_slice", Box::new(|m| { let mut b = vec![tag::<$S>(29); $NN]; m.write_cols_to_slice(&mut b); b })),
+            // a destination longer than the matrix, starting off a 16-byte boundary: the first N*N elements, column 0 first
+            ("write_cols_to_slice(longer, offset)", Box::new(|m| { let mut b = vec![tag::<$S>(29); $NN + 5]; m.write_cols_to_slice(&mut b[1..]); b[1..$NN + 1].to_vec() })),
             ("col(c)[r]", Box::new(|m| (0..$NN).map(|k| m.col(k / $N)[k % $N]).collect())),
             ("row(r)[c]", Box::new(|m| (0..$NN).map(|k| m.row(k % $N)[k / $N]).collect())),
             ("axis fields", Box::new(|m| mat_lay!(@read_axes $N, m))),
@@ -192,12 +195,15 @@ macro_rules! aff_lay {
                 ("from_cols", Box::new(move |e| aff_lay!(@from_cols $C, $T, colv, e))),
                 ("from_cols_array_2d", Box::new(|e| <$T>::from_cols_array_2d(&core::array::from_fn(|c| core::array::from_fn(|r| e[c * $R + r]))))),
                 ("from_cols_slice", Box::new(|e| <$T>::from_cols_slice(e))),
+                ("from_cols_slice(longer, offset)", Box::new(|e| { let mut v = vec![tag::<$S>(28)]; v.extend_from_slice(e); v.push(tag::<$S>(30)); <$T>::from_cols_slice(&v[1..]) })),
                 ("field writes", Box::new(move |e| { let mut a = <$T>::IDENTITY; for c in 0..($C - 1) { *a.$lin.col_mut(c) = colv(e, c).into(); } a.translation = colv(e, $C - 1).into(); a })),
             ],
             readers: vec![
                 ("to_cols_array", Box::new(|m| m.to_cols_array().to_vec())),
                 ("to_cols_array_2d", Box::new(|m| m.to_cols_array_2d().iter().flat_map(|c| c.iter().copied()).collect())),
                 ("write_cols_to_slice", Box::new(|m| { let mut b = vec![tag::<$S>(29); $NN]; m.write_cols_to_slice(&mut b); b })),
+                // a destination longer than the matrix, starting off a 16-byte boundary: the first N*N elements, column 0 first
+                ("write_cols_to_slice(longer, offset)", Box::new(|m| { let mut b = vec![tag::<$S>(29); $NN + 5]; m.write_cols_to_slice(&mut b[1..]); b[1..$NN + 1].to_vec() })),
                 ("fields", Box::new(|m| { let mut v: Vec<$S> = Vec::new(); for c in 0..($C - 1) { let col = m.$lin.col(c); for r in 0..$R { v.push(col[r]); } } for r in 0..$R { v.push(m.translation[r]); } v })),
             ],
             transpose: None,
